@@ -14,7 +14,7 @@
 #include <stdint.h>
 #include <string.h>
 
-#define MAXV 8192
+#define MAXV 400000         /* (a 70000-element ring shows both iterator sequences in one observation) */
 
 typedef struct {
     char name[40];
